@@ -52,6 +52,10 @@ func (output *Output) interpolateParameters(interpolator ParametersInterpolator)
 	}
 
 	for _, outputLanguage := range output.Languages {
+		if outputLanguage == nil {
+			continue
+		}
+
 		outputLanguage.interpolateParameters(output, interpolator)
 	}
 }
